@@ -381,6 +381,9 @@ def build_loop(spec):
     step = li(spec["step"]) if spec["dynamic"] else None
     w = li(50)
     inits = [li(100 + i) for i in range(spec["ninit"])]
+    shared = {"ub": ub, "step": step}.get(spec.get("init_is"))
+    if inits and shared is not None:
+        inits[0] = shared  # the first carried value starts as the loop's own upper bound / dynamic step, which the loop keeps reading
     blk = Block(arg_types=[U] * (1 + spec["ninit"]))
     avail = list(blk.args)
     if spec["w_in_body"]:
@@ -433,6 +436,8 @@ def run_loop_program(f, key):
 
     def wr(v, x):
         k = key(v)
+        if abs(x) > 10 ** 60:
+            raise RuntimeError("values grow without bound at register level")  # keeps a diverging register-level run cheap
         if k != "zero":
             env[k] = x
 
@@ -454,7 +459,7 @@ def run_loop_program(f, key):
             it = 0
             while rd(iv) < rd(o.ub):
                 it += 1
-                if it > 50:
+                if it > 8:  # the SSA-level run makes at most 3 iterations
                     raise RuntimeError("loop does not terminate at register level")
                 for inner in body.ops:
                     if inner is not y:
@@ -519,9 +524,11 @@ def loop_classes(f):
     """Input class of the recorded known finding: some loop-carried block argument is still read AFTER the op that defines the value yielded in its position
     (both are forced into one register by allocate_values_same_reg although they are simultaneously live)."""
     hit = False
+    shared = False
     for o in f.body.block.ops:
         if o.name != "riscv_scf.for":
             continue
+        shared = shared or any(i is o.ub or i is o.step_val for i in o.iter_args)
         body = list(o.body.block.ops)
         y = body[-1]
         for i, yv in enumerate(y.operands):
@@ -530,7 +537,8 @@ def loop_classes(f):
                 d = body.index(yv.owner)
                 if any(u.operation in body and body.index(u.operation) > d and u.operation is not y for u in acc.uses):
                     hit = True
-    return {"a_carried_block_argument_is_read_after_its_yielded_value_is_defined": hit}
+    return {"a_carried_block_argument_is_read_after_its_yielded_value_is_defined": hit,
+            "an_iter_arg_init_is_also_the_upper_bound_or_the_step_of_its_loop": shared}
 
 
 def explore_loops(tier, seed):
@@ -544,13 +552,17 @@ def explore_loops(tier, seed):
             body = [("li", 0, 0)] * min(nb, 1) + [("add", 0, nb + 1)] * max(nb - 1, 0)
             specs.append({"lb": lb, "ub": ub, "step": step, "dynamic": dynamic, "ninit": ninit, "body": body, "yields": [ninit + 1 + i for i in range(ninit)],
                           "after": list(after), "w_in_body": w_in})
+            if ninit and not after:
+                for init_is in ("ub", "step"):
+                    specs.append(dict(specs[-1], init_is=init_is))
     n = 150 if tier == "quick" else 4000
     for _ in range(n):
         ninit = rnd.randrange(0, 3)
         body = [(rnd.choice(["li", "add", "mul", "add"]), rnd.randrange(0, 9), rnd.randrange(0, 9)) for _ in range(rnd.randrange(0, 4))]
         specs.append({"lb": rnd.choice([0, 1]), "ub": rnd.choice([0, 1, 2, 3]), "step": rnd.choice([1, 2]), "dynamic": rnd.random() < 0.6, "ninit": ninit, "body": body,
                       "yields": [rnd.randrange(0, 9) for _ in range(ninit)], "after": rnd.sample(["w", "ub", "step", "lb"], rnd.randrange(0, 3)),
-                      "w_in_body": rnd.random() < 0.5, "ub_in_body": rnd.random() < 0.3, "step_in_body": rnd.random() < 0.3})
+                      "w_in_body": rnd.random() < 0.5, "ub_in_body": rnd.random() < 0.3, "step_in_body": rnd.random() < 0.3,
+                      "init_is": rnd.choice([None, None, None, None, "ub", "step"])})
     cases = 0
     fails = []
     seen = set()
@@ -563,5 +575,5 @@ def explore_loops(tier, seed):
             fails.append(f)
     return {"cases": cases, "failures": fails, "exhaustive": False,
             "bound": f"{cases} single-block riscv functions with ONE riscv_scf.for (static / dynamic step, 0-2 loop-carried values each yielded as a fresh body value, <= 3 further body "
-                     "ops over the induction variable, the carried values, outer values, ub and step; ub / step / lb / an outer value optionally read again after the loop; 0-3 "
+                     "ops over the induction variable, the carried values, outer values, ub and step; ub / step / lb / an outer value optionally read again after the loop; the first init optionally the loop's own ub / step; 0-3 "
                      "iterations), allocated by the real riscv-allocate-registers pass and executed concretely at SSA level and at register level"}
